@@ -76,6 +76,11 @@ def generate(seed, run, tier):
                 ops.extend(_fault(r, c))
         elif m < 0.93:
             ops.append([c, 'set_seed', r.randrange(2**31)])
+        elif m < 0.965:
+            # a planner uses the functional interface of the same environment object between stateful calls
+            ops.append([c, 'lookahead', r.randrange(64), r.randrange(64), r.choice(['step', 'obs', 'both'])])
+            if r.random() < 0.7:
+                ops.append([c, 'read_obs', r.choice([1, 2])])
         else:
             ops.extend(_fault(r, c))
     rec['ops'] = ops
@@ -294,6 +299,42 @@ class MirrorSim(Sim):
                 return
             self.ctx.probe('outer_state_read')
         self.lockstep(cl, 'outer_read')
+
+    def op_lookahead(self, cl, i, k, what):
+        """functional calls on the real environment (and, to stay in generator lock-step, on the twin)"""
+        if not cl.started:
+            return
+        tw = self.twins[cl.idx]
+        past = cl.meta.setdefault('past', [])
+        if not past or state_key(past[-1]) != state_key(cl.S):
+            past.append(cl.S)
+            del past[:-6]
+        P = past[i % len(past)]
+        a = action_of(cl.actions[k % len(cl.actions)])
+        self.ctx.fault('functional_calls_on_live_env_' + what)
+        calls0 = cl.obs_calls
+        Q = P
+        if what in ('step', 'both'):
+            r1 = sut(cl.env.functional_step, P, a)
+            r2 = sut(tw.env.functional_step, P, a)
+            if isinstance(r1, Raised) or isinstance(r2, Raised):
+                return
+            if state_key(r1[0]) != state_key(r2[0]) or r1[1] != r2[1] or bool(r1[2]) != bool(r2[2]):
+                self.violate('mirror', 'functional_step_differs_between_instances', 'lookahead', '-', 'two equally seeded instances in generator lock-step answer the same functional question differently')
+                return
+            Q = r1[0]
+        if what in ('obs', 'both'):
+            o1 = sut(cl.env.functional_observation, Q)
+            o2 = sut(tw.env.functional_observation, Q)
+            if isinstance(o1, Raised) or isinstance(o2, Raised):
+                return
+            if state_key(o1) != state_key(o2):
+                self.violate('mirror', 'functional_observation_differs_between_instances', 'lookahead', '-', 'functional_observation differs between two equally seeded instances in lock-step')
+                return
+        # observation computations made by the planner itself are not computations "for the current state"
+        cl.calls_at_change = getattr(cl, 'calls_at_change', 0) + (cl.obs_calls - calls0)
+        # the stateful side must be untouched by functional use: state unchanged, memo still belongs to the state
+        self.same_state(cl, 'after_functional_calls') and self.lockstep(cl, 'after_functional_calls')
 
     def op_bad_action(self, cl, kind, k):
         """C01 says a rejected action changes nothing: the C04 invariants must survive it"""
